@@ -30,7 +30,7 @@ P = {
     "coq_targets": ["Properties/C11.vo", "Run/Eval_C11.vo"],
     "theorems_module": "Properties.C11",
     "theorems": ["C11_no_boundary_shift", "C11_collision_needs_shift", "C11_F4_refuted", "C11_key_deterministic", "C11_F1_refuted",
-                 "C11_key_injective", "C11_cache_transparent", "C11_cache_transparent_repaired", "C11_nonvacuous",
+                 "C11_key_injective", "C11_cache_transparent", "C11_cache_transparent_repaired", "C11_nonvacuous", "C11_nonvacuous_mixed",
                  "C11_identical_requests_hit",
                  "C11_F2_refuted", "C11_F3_refuted", "C11_F4_history_refuted", "C11_F6_refuted", "C11_F7_refuted", "C11_F10_refuted",
                  "C11_cc_cache_transparent", "C11_cc_F4_refuted", "C11_jf_cache_transparent", "C11_F5_refuted",
@@ -47,21 +47,27 @@ P = {
         "n_quick": 300, "n_thorough": 3000, "shard": 56,
         "findings": {4: "C11-F4"},
     }],
-    "rule": "stream histories: histories of 2-6 executions of REAL caching mechanisms (oauth2_introspection and generic authenticators, "
+    "rule": "stream histories: histories of 2 to about 12 executions of REAL caching mechanisms (oauth2_introspection and generic authenticators, "
             "remote authorizer, generic contextualizer) created by the real mechanism factory from a generated prototype (0-3 endpoint "
-            "headers, 0-3 values, api-key/basic auth strategies, templated URL/headers/payload, forwarded headers/cookies, ttl "
-            "unset/positive/0), optionally a rule-level reconfiguration (assertions, expressions, payload, values, ttl, forwarded "
-            "names) and a near-copy sibling prototype (different id; id/payload, header name/value, api-key, basic-auth fields "
-            "shifted across their boundaries; url, method, payload, forwarded names changed); each step is derived from an earlier one "
-            "as identical / other instance / one request component changed (subject, attribute, each referenced header, cookie, output, "
-            "credential) / two values shifted against each other; every history runs against one shared recording cache, again without "
-            "cache, and one step 20 times against empty caches (map order); a local httptest server plays the remote systems and echoes "
-            "what it receives. Stream keys: histories of the client-credentials token cache (components changed one at a time, scopes and "
+            "headers, 0-3 values, api-key/basic/client-credentials auth strategies, templated URL/headers/payload, forwarded "
+            "headers/cookies, response headers handed on to the upstream service, session_lifespan, ttl unset/positive/0), optionally a "
+            "rule-level reconfiguration (scope and audience assertions, expressions, payload, values, ttl, forwarded names) and a "
+            "near-copy sibling prototype (different id; id/payload, header name/value, api-key, basic-auth, client-credential fields "
+            "shifted across their boundaries; url, method, payload, forwarded names, session lifespan changed); 40% of the histories mix "
+            "up to four kinds of mechanisms on the one shared cache; subject ids, tokens, header values and outputs come in different "
+            "lengths; each step is derived from an earlier one as identical / other instance / one request component changed (subject, "
+            "attribute, each referenced header, cookie, output, credential) / two values shifted against each other, and every further "
+            "instance of a history is used at least twice; every history runs against one shared recording cache, again without cache, "
+            "and one step 20 times against empty caches (map order); a local httptest server plays the remote systems and echoes what "
+            "it receives. Observed per step: key looked up, hit, remote calls, decision (allow with the echoed request / subject / "
+            "scopes / audience / active flag, or refusal) and the headers handed on to the upstream service, with and without cache. "
+            "Stream keys: histories of the client-credentials token cache (components changed one at a time, scopes and "
             "id|secret shifted), of the jwt finalizer with key-store reloads (same / new key id, failing reload), of the jwt "
             "authenticator's key cache (templated or literal JWKS URL, three issuers sharing a key id, honest and forged issuer claims, "
             "other signer, unknown key id; real ES256 signatures) and of the RFC 7234 cache of an endpoint (GET/POST, payload, Vary "
-            "none/X-User/X-Other/both, max-age/no-store). Corpora (12 endpoint-component probes, finding-free histories, the witnesses "
-            "of every open and fixed finding, the witness of seeded change C05-1) first. Non-trivial = at least two cache look-ups in "
+            "none/X-User/X-Other/both, max-age/no-store). Corpora (endpoint-component and client-credential probes, "
+            "finding-free histories, the witnesses of every open and fixed finding incl. the audience variant of F2, the witness of "
+            "seeded change C05-1) first. Non-trivial = at least two cache look-ups in "
             "the history; distinct by hash of the generated input (test-server port masked).",
     "anchors": ["internal/rules/endpoint/endpoint.go", "internal/rules/mechanisms/authorizers/remote_authorizer.go",
                 "internal/rules/mechanisms/contextualizers/generic_contextualizer.go",
@@ -82,31 +88,41 @@ P = {
         "the remote systems are the harness's echo server (deterministic function of the request it receives and of two tables of "
         "the case); CEL expressions are restricted to true/false/(in)equality on the echoed body and url",
         "the driver mirrors WithConfig's merge to compute the effective configuration of a rule-level instance (a mismatch shows "
-        "as a correspondence failure)",
+        "as a correspondence failure, so a harmless change of the merge rules ends as `correspondence differs`)",
+        "keys are compared up to renaming within a case (which look-ups share a key); whether the observed key bytes are those of the "
+        "modelled pre-image layout is reported as key_layout_drift under extra_coverage and is not a verdict",
+        "the cache itself (internal/cache) is replaced by a recording map: key truncation or folding inside a cache backend is out of scope",
         "stream keys: ES256 signature verification, JWK thumbprints and the RFC 7234 response parser (cachecontrol) are oracles "
         "(which key verifies a token / thumbprint bytes / 'storable' are case data); the harness's servers are honest about Vary",
     ],
     "level_text": "Proof (kernel-checked, no axioms) about a byte-exact model of the key derivations (Endpoint.Hash, strategy and "
                   "subject hashes, calculateCacheKey of introspection / generic authenticator / remote authorizer / generic "
-                  "contextualizer / jwt authenticator key cache / jwt finalizer / client credentials / RFC 7234 cache) and of their "
-                  "look-up/validate/store logic: pre-images are injective on their writes unless two writes differ in length (no "
-                  "boundary shifting); keys do not depend on map iteration order; equal keys imply equal key components for "
-                  "well-formed instances (key injectivity, SHA-256 assumed collision-free); for ALL histories, instances, requests "
-                  "and iteration orders on which no guard of an open finding fires, every outcome with the cache equals the outcome of "
-                  "a fresh evaluation under the instance's own policy (cache transparency, also for the token caches, the key cache "
-                  "with forged issuer claims and the finalizer across key-store reloads); an identical request after an allowed one "
-                  "is answered without a remote call. Every open finding (F4, F6, F7) has a guard and a proved witness; the "
-                  "repaired ones (F1, F2, F3, F5, F8, F9) are model switches with the pinned behaviour kept as refutation. The model is tied to "
-                  "the code by running ~800+300 (quick) / 8000+3000 (thorough) generated histories per run through the real mechanisms "
-                  "with a recording cache and comparing keys (via the SHA-256 table), hits, remote call counts and outcomes with and "
-                  "without cache inside Coq.",
+                  "contextualizer / jwt authenticator key cache / jwt finalizer / client credentials / RFC 7234 cache, each with the "
+                  "ttl bytes of 8647e06) and of their look-up/validate/store logic: pre-images are injective on their writes unless two "
+                  "writes differ in length (no boundary shifting); keys do not depend on map iteration order; equal keys imply equal "
+                  "key components for well-formed instances (key injectivity, SHA-256 assumed collision-free); for ALL histories, "
+                  "instances (of all four kinds mixed on one cache), requests and iteration orders on which no guard of an open "
+                  "finding fires, every outcome with the cache equals the outcome of a fresh evaluation under the instance's own "
+                  "policy (cache transparency, also for the token caches, the key cache with forged issuer claims and with keys that "
+                  "fail validation, and the finalizer across key-store reloads); an identical request after an allowed one is answered "
+                  "without a remote call. The guard of F4 is exact (equal pre-image bytes of different writes), the guards of F6/F7 fire "
+                  "only for two look-ups that share a key; two proved witnesses (one kind; three kinds with values of different lengths) "
+                  "show the hypotheses are satisfiable. Every open finding (F4, F6, F7) has a guard and a proved witness; the repaired "
+                  "ones (F1, F2, F3, F5, F8, F9, F10, F11) are model switches with the pinned behaviour kept as refutation. The model is "
+                  "tied to the code by running 500+300 (quick) / 6000+3000 (thorough) generated histories per run through the real "
+                  "mechanisms with a recording cache and comparing inside Coq which look-ups share a key, hits, remote call counts, "
+                  "decisions and upstream headers; the property verdict compares what the real code returned with the cache against "
+                  "what the real code returned without it, not against the model.",
     "level_note": "Trusted: Coq kernel/vm_compute; the correspondence harness (generator, echo/token/JWKS servers, recording cache, "
                   "rendering); SHA-256 as a parameter (observed digests; injectivity assumed only where stated); map order, "
                   "json.Marshal, JWK thumbprints, the RFC 7234 parser, the template fragment and the CEL fragment as listed. Open "
                   "findings observed on every run (corpus): C11-F4 (delimiter-less concatenation), F6 (forwarded header/cookie values, "
                   "generic authenticator payload not in key), F7 (.Outputs in endpoint templates not in key). Fixed and modelled as "
                   "switches: F1 9b4883e, F2 deaddf0, F3 abe584c, F5 d9caf75, F8 and F9 12fdf68 (httpcache: only GET/HEAD looked up and "
-                  "stored, no response with Vary stored).",
+                  "stored, no response with Vary stored), F10 abc25e7 (session lifespan asserted on a hit), F11 d20d7cd (a cached JWK "
+                  "that fails validation is ignored and fetched again). Not covered: the claims template of the jwt finalizer beyond "
+                  ".Subject.ID/.Outputs, http_message_signatures' hash, introspection via metadata_endpoint, key collisions ACROSS "
+                  "kinds of mechanisms on one URL (excluded by the F4 guard on the endpoint level), the cache backends.",
     "assumptions": [
         "time is not modelled: all look-ups of a history happen within the TTL (expiry is C10)",
         "the remote system is a deterministic function of the request it receives (what 'a fresh evaluation would yield' means)",
